@@ -1738,7 +1738,9 @@ impl<'a> Runner<'a> {
                     }
                 }
             }
-            if self.class == Class::Adapter {
+            // an adapter whose window is full cannot pull: what upstream has at hand does not matter
+            let full = self.class == Class::Adapter && self.cfg.cap >= 1 && self.queue.len() >= self.cfg.cap;
+            if self.class == Class::Adapter && !full {
                 // upstream must be pending or exhausted
                 if !w.up.ended && w.up.pos < w.up.released {
                     return false;
